@@ -130,6 +130,11 @@ Proof.
   - now rewrite (reserved_remove_rejected rt view s I).
 Qed.
 
+(* Filter terms the constructor refuses (two draw terms; a draw comparison other than =, ==, in - encoded as a negative
+   filter id): Artifact(path, terms) raises before anything is touched, the handle in use stays as it is. *)
+Theorem C19_refused_constructor : forall s f, f < 0 -> step s (Reopen f) = (s, Rej EOther).
+Proof. intros s f H. simpl. apply Z.ltb_lt in H. now rewrite H. Qed.
+
 (* Clearing the cache and re-opening the file change neither the keys nor any content, and no later operation
    sequence can tell the difference (same outcomes, same loaded values). *)
 Theorem C19_clear_reopen_neutral : forall s o ops, Inv s -> (o = ClearCache \/ o = Reopen (filt s)) ->
@@ -216,6 +221,7 @@ Print Assumptions C19_keys_loadable_reopen.
 Print Assumptions C19_load_last_written.
 Print Assumptions C19_rejected_unchanged.
 Print Assumptions C19_listed_rejections.
+Print Assumptions C19_refused_constructor.
 Print Assumptions C19_clear_reopen_neutral.
 Print Assumptions C19_filter_restricts.
 Print Assumptions C19_filter_absent_dropped.
